@@ -147,7 +147,7 @@ func scanOne(dir, input string) obj {
 		sort.Strings(paths)
 		for _, p := range paths {
 			pi := sw.Paths.Paths[p]
-			for m, op := range map[string]*spec.Operation{"GET": pi.Get, "POST": pi.Post, "PUT": pi.Put, "DELETE": pi.Delete} {
+			for m, op := range map[string]*spec.Operation{"GET": pi.Get, "POST": pi.Post, "PUT": pi.Put, "DELETE": pi.Delete, "PATCH": pi.Patch, "HEAD": pi.Head, "OPTIONS": pi.Options} {
 				if op == nil {
 					continue
 				}
